@@ -271,3 +271,12 @@ func Distinct(bs ...[]byte) {
 }
 
 var _ = io.EOF
+
+func rtSetParam(name string, v int) { rt.SetParam(name, v) }
+
+func Min(a, b int) int {
+	if a < b {
+		return a
+	}
+	return b
+}
